@@ -15,6 +15,9 @@ from .tree_common import check_from_list_rows, check_sep
 
 
 def check(ck: Checker) -> None:
+    from .generic_lints import run_all as _lints_
+
+    _lints_(ck, "C02.aliasing", "hashfile.checkout")
     ck.decided = [
         "C02.sep: Tree.as_list / from_list use the same path field and '/' separator (unbounded split)",
         "C02.zipalign: in _build_files every zip() pairs file names with paths that take order and length from the same listing",
